@@ -376,6 +376,26 @@ impl Scenario for Hist {
                 return Some(Op::create_table(gen_table(rng, &sw, &name)));
             }
         };
+        if self.hostile && self.sw.big_rows > 0 && !self.world.tables.contains_key("wide") && self.world.next_name > 0 {
+            // (C24) bulk-loaded table of wide integers
+            let mut ops = vec![Op::new(Kind::Other, "CREATE TABLE wide (c0 INTEGER, c1 INTEGER)".into()).table("wide")];
+            let mut left = self.sw.big_rows;
+            while left > 0 {
+                let k = left.min(700);
+                let rows: Vec<String> = (0..k).map(|_| format!("({}, {})", (1i64 << 52) - 1 - rng.range(0, 1 << 20), rng.range(0, 9))).collect();
+                ops.push(Op::new(Kind::Other, format!("INSERT INTO wide VALUES {}", rows.join(", "))).table("wide"));
+                left -= k;
+            }
+            for q in ["SELECT SUM(c0) FROM wide", "SELECT AVG(c0) FROM wide", "SELECT SUM(c0), MIN(c0), MAX(c0), COUNT(*) FROM wide WHERE c1 >= 1", "SELECT SUM(c1) FROM wide"] {
+                let mut op = Op::new(Kind::Hostile, q.to_string());
+                op.fault = "hostile".into();
+                ops.push(op);
+            }
+            self.world.tables.insert("wide".into(), TableDef { name: "wide".into(), cols: vec![ColDef { name: "c0".into(), ty: Ty::Int, not_null: false }, ColDef { name: "c1".into(), ty: Ty::Int, not_null: false }], ..Default::default() });
+            ops.reverse();
+            self.setup = ops;
+            return self.setup.pop();
+        }
         if self.hostile && rng.chance(1, 4) {
             let mut op = Op::new(Kind::Hostile, gen_hostile(rng, &def));
             op.fault = "hostile".into();
